@@ -488,6 +488,14 @@ class Know:
                     hi |= 1 << i
         else:
             lo, hi = 0, mask(leaf_width(leaf))
+        b = self.bounds.get(((leaf, 1),))
+        if b is not None:
+            if b[0] is not None:
+                lo = max(lo, b[0])
+            if b[1] is not None:
+                hi = min(hi, b[1])
+            if lo > hi:
+                raise Infeasible()
         return lo, hi
 
     # -- linear intervals
@@ -526,24 +534,21 @@ class Know:
                 lo = max(lo, blo)
             if bhi is not None:
                 hi = min(hi, bhi)
-        # one-step combination with each relational bound
+        # one-step combination with each relational bound R (lo_R <= R <= hi_R):
+        # e = sgn*R + (e - sgn*R); the remainder is bounded by plain leaf ranges.
         if len(self.bounds) <= 64:
+            tl = set(terms)
             for rkey, (rlo, rhi) in self.bounds.items():
                 if rkey == key or len(rkey) < 2:
                     continue
+                if not any(l in tl for l, _ in rkey):
+                    continue
                 for sgn in (1, -1):
                     rest = dict(terms)
-                    ok = True
                     for l, c in rkey:
-                        c = c * sgn
-                        if l not in rest:
-                            ok = False
-                            break
-                        rest[l] = rest[l] - c
-                    if not ok:
-                        continue
+                        rest[l] = rest.get(l, 0) - c * sgn
                     rest = {l: c for l, c in rest.items() if c != 0}
-                    if len(rest) >= len(terms):
+                    if len(rest) > len(terms):
                         continue
                     plo, phi = self._plain_interval(rest)
                     a, b2 = (rlo, rhi) if sgn > 0 else ((-rhi if rhi is not None else None), (-rlo if rlo is not None else None))
